@@ -160,11 +160,12 @@ def realise(spec, scale=1.0):
     return model
 
 
-def run_model(ctx, model):
+def run_model(ctx, model, build=True):
     from taurex.exceptions import InvalidModelException
     _state['snap'] = None
     try:
-        model.build()
+        if build:
+            model.build()
         wn, depth, trans, _ = model.model()
     except InvalidModelException as e:
         # only the Guillot profile can reject the atmospheres this generator draws
